@@ -26,9 +26,11 @@ RULE = ('Hypothesis draws the qubit count (1..7 for entangled states with TT ran
         'one, state untouched. If the sampler stops drawing exactly one (N, k) uniform matrix the check falls back to a chi-square '
         'test of 20000 samples against the exact marginal at level 1e-9. Non-trivial: complex amplitudes, bond rank >= 2, '
         'unmeasured sites present, or more than 20 qubits.')
+RULE += (' ' + 'Added classes: a rare measurement branch with variates placed inside its mass, variates 1e-8 next to a decision boundary, measured sites in shuffled order (either column order accepted).')
+
 ASSUMPTIONS = [
     'oracle: dense Born probabilities from the independently contracted state (vt/dense.py)',
-    'the state is normalised and right-orthonormal (documented precondition); measured sites are given in increasing order',
+    'the state is normalised and right-orthonormal (documented precondition); measured sites are a list without repetitions, in increasing order or (three or more sites) shuffled -- then the bit columns are accepted in site order or in list order',
     'uniform variates within 1e-9 of a decision boundary are discarded (assume)',
     'matplotlib is replaced by an import stub (vt/stubs); plotting is not exercised',
 ]
@@ -42,7 +44,12 @@ def state_case(draw):
          'signed': draw(st.sampled_from([False, False, True])), 'hadamard_gauge': draw(st.booleans()),
          # a rare branch: the amplitudes with one qubit of the first block in state 1 (or 0) are scaled by 2e-3 / 3e-4, so that
          # outcome has a conditional probability of 1e-5 ... 1e-8, and every third shot gets a variate inside that small mass
-         'rare': draw(st.sampled_from([None, None, None, 2e-3, 3e-4]))}
+         'rare': draw(st.sampled_from([None, None, None, 2e-3, 3e-4])),
+         # the measured sites handed over in another order than increasing (a subset has no order): the bit columns may then come
+         # back in site order or in the order of the list, both are readings of "the measured sites"
+         'shuffle_measure': draw(st.sampled_from([None, None, None, 1, 2, 3])),
+         # every fourth shot gets one variate 1e-8 away from its decision boundary (the sampler works in double precision)
+         'near_threshold': draw(st.sampled_from([False, False, True]))}
     if kind == 'entangled':
         n = draw(st.integers(1, 7))
         c['blocks'] = [n]
@@ -93,7 +100,7 @@ def block_state(rng, q, rank, cplx, signed=False, rare=None):
     return v / np.linalg.norm(v), cores
 
 
-def predict_bits(psi, q, measured, U, rare=False):
+def predict_bits(psi, q, measured, U, rare=False, near=False):
     """inverse-CDF sampling for one block: psi dense (2^q), measured = local site indices (sorted), U (N x len(measured))
     -> bit matrix (N x len(measured)), minimal distance of a variate to a decision boundary"""
     P = (np.abs(psi) ** 2).reshape([2] * q)
@@ -116,6 +123,9 @@ def predict_bits(psi, q, measured, U, rare=False):
                     U[s, j] = c0 + (1 - c0) / 2
                 elif 0 < c0 < 1e-4:
                     U[s, j] = c0 / 2
+            if near and s % 4 == 1 and j == (s // 4) % k and 1e-6 < c0 < 1 - 1e-6:
+                # a variate 1e-8 above / below the decision boundary (ten times the guard band, a thousand times rounding)
+                U[s, j] = c0 + (1e-8 if (s // 4) % 2 == 0 else -1e-8)
             mind = min(mind, abs(U[s, j] - c0))
             b = 1 if U[s, j] > c0 else 0
             bits[s, j] = b
@@ -158,7 +168,8 @@ def body(c):
         for q, v in zip(blocks, dblocks):
             loc = [s - off for s in measure if off <= s < off + q]
             if loc:
-                bits, md = predict_bits(v, q, loc, U[:, col:col + len(loc)], rare=bool(c.get('rare')) and off == 0 and not c.get('signed'))
+                bits, md = predict_bits(v, q, loc, U[:, col:col + len(loc)], rare=bool(c.get('rare')) and off == 0 and not c.get('signed'),
+                                        near=bool(c.get('near_threshold')))
                 pred_[:, col:col + len(loc)] = bits
                 col += len(loc)
                 mind_ = min(mind_, md)
@@ -176,9 +187,14 @@ def body(c):
             return U.copy()
         return orig(*shape)
 
+    mlist = list(measure)
+    if c.get('shuffle_measure') and k >= 3:
+        perm = np.random.default_rng(c['shuffle_measure'] + 100 * k).permutation(k)
+        if not np.array_equal(perm, np.arange(k)):
+            mlist = [measure[j] for j in perm]
     np.random.rand = fake_rand
     try:
-        samples, freqs = qc.sampling(state, list(measure), N)
+        samples, freqs = qc.sampling(state, list(mlist), N)
     finally:
         np.random.rand = orig
     build.require_unchanged(state, snap, 'quantum state')
@@ -191,6 +207,8 @@ def body(c):
     lab = {c['kind']}
     if c.get('rare') and not c.get('signed'):
         lab.add('rare_branch')
+    if c.get('near_threshold') and N >= 2:
+        lab.add('variates_next_to_decision_boundaries')
     if c['cplx']:
         lab.add('complex')
     if c['rank'] >= 2 and max(blocks) >= 2:
@@ -208,6 +226,12 @@ def body(c):
     if calls == [(N, k)]:
         want_s, want_c = np.unique(pred, return_counts=True, axis=0)
         ok = samples.shape == want_s.shape and np.array_equal(samples.astype(int), want_s) and np.allclose(freqs, want_c / N, rtol=0, atol=1e-12)
+        if not ok and mlist != list(measure):
+            # columns in the order of the list that was handed over
+            alt_s, alt_c = np.unique(pred[:, [measure.index(s_) for s_ in mlist]], return_counts=True, axis=0)
+            ok = samples.shape == alt_s.shape and np.array_equal(samples.astype(int), alt_s) and np.allclose(freqs, alt_c / N, rtol=0, atol=1e-12)
+        if mlist != list(measure):
+            lab.add('measured_sites_not_in_increasing_order')
         require(ok, 'inverse_cdf', 'returned %d outcomes %s with frequencies %s; predicted from the dense state: %s with %s'
                 % (samples.shape[0], samples.astype(int).tolist()[:4], freqs[:4], want_s.tolist()[:4], (want_c / N)[:4]))
         lab.add('exact_prediction')
